@@ -192,22 +192,38 @@ class Repo:
             raise AnalysisError(f'anchor module {name} not found')
         return self.modules[name]
 
-    def func(self, module: str, qualname: str) -> FuncInfo:
+    def _follow(self, module: str, name: str, depth: int = 0):
+        """(kind, info) of `name` in the namespace of `module`, following imports inside the package:
+        a helper that was moved to another module and imported back is still the module's helper."""
         mi = self.module(module)
+        if name in mi.functions:
+            return ('func', mi.functions[name])
+        if name in mi.classes:
+            return ('class', mi.classes[name])
+        imp = mi.imports.get(name)
+        if imp is not None and imp[0] == 'rel' and depth < 8:
+            got = self.resolve_rel(imp[1], imp[2])
+            if got is not None and got[0] in ('func', 'class'):
+                return got
+        return None
+
+    def func(self, module: str, qualname: str) -> FuncInfo:
         if '.' in qualname:
             cname, mname = qualname.split('.', 1)
-            if cname not in mi.classes or mname not in mi.classes[cname].methods:
+            got = self._follow(module, cname)
+            if got is None or got[0] != 'class' or mname not in got[1].methods:
                 raise AnalysisError(f'anchor {module}:{qualname} not found')
-            return mi.classes[cname].methods[mname]
-        if qualname not in mi.functions:
+            return got[1].methods[mname]
+        got = self._follow(module, qualname)
+        if got is None or got[0] != 'func':
             raise AnalysisError(f'anchor {module}:{qualname} not found')
-        return mi.functions[qualname]
+        return got[1]
 
     def cls(self, module: str, name: str) -> ClassInfo:
-        mi = self.module(module)
-        if name not in mi.classes:
+        got = self._follow(module, name)
+        if got is None or got[0] != 'class':
             raise AnalysisError(f'anchor class {module}:{name} not found')
-        return mi.classes[name]
+        return got[1]
 
     def resolve_rel(self, dotted: str, attr: str):
         """Resolve `from <dotted> import attr` to a module, function, class or None."""
